@@ -345,6 +345,33 @@ func replayEdits(rep *run.Report, batch []editCase, prop string, serModes int) {
 					}
 				}
 			}
+			// the iterator ParsedJson.ForEach hands to its callback stands on a root's value: marshalling it gives that value
+			{
+				r := 0
+				ferr := pj.ForEach(func(fi simdjson.Iter) error {
+					r++
+					want, ok := c.subs[pathKey([]int{r})]
+					if !ok {
+						return nil
+					}
+					mb, merr := fi.MarshalJSON()
+					if len(want) == 1 && want[0] == 0 {
+						if merr == nil {
+							fail("marshal", "an error (non-finite float)", string(mb), fmt.Sprintf("MarshalJSON of the ForEach iterator of root %d", r))
+						}
+					} else if merr != nil {
+						fail("marshal", string(want), "error", fmt.Sprintf("MarshalJSON of the ForEach iterator of root %d: %v", r, merr))
+					} else if !bytes.Equal(mb, want) {
+						if why := marshalDemand(mb, []abs.Value{c.docs[r-1]}, avx512); why != "" {
+							fail("marshal", string(want), string(mb), fmt.Sprintf("MarshalJSON of the ForEach iterator of root %d: %s", r, why))
+						}
+					}
+					return nil
+				})
+				if ferr != nil {
+					fail("read", "ForEach visits every root", "error", ferr.Error())
+				}
+			}
 			for _, p := range c.paths {
 				want := c.subs[pathKey(p)]
 				for _, m := range marshalAt(pj, p) {
@@ -474,7 +501,17 @@ func roundTrip(s, d *simdjson.Serializer, pj *simdjson.ParsedJson, mode, dmode s
 	}()
 	s.CompressMode(mode)
 	d.CompressMode(dmode)
-	blobBytes = s.Serialize(nil, *pj)
+	// Serialize appends to dst: every second blob is written behind bytes the caller already has
+	if (int(mode)+int(dmode))%2 == 1 {
+		pre := []byte("caller's bytes:")
+		full := s.Serialize(append(make([]byte, 0, 64), pre...), *pj)
+		if !bytes.HasPrefix(full, pre) {
+			return nil, full, aspect, fmt.Errorf("Serialize changed the bytes already in dst: %q", full[:min(len(full), 40)])
+		}
+		blobBytes = full[len(pre):]
+	} else {
+		blobBytes = s.Serialize(nil, *pj)
+	}
 	if c.serT != nil {
 		// the wire format is internal: a blob that is not laid out as Serializer!Ser says is specification drift, reported as a
 		// counter; what C11 demands - the round trip in every mode pair and in the noasm build - is judged below
